@@ -13,7 +13,11 @@ ROUND6 = os.environ.get('ROUND6', '0') == '1'
 ROUND7 = os.environ.get('ROUND7', '0') == '1'
 ROUND8 = os.environ.get('ROUND8', '0') == '1'
 ROUND9 = os.environ.get('ROUND9', '0') == '1'
-if ROUND9:     # ninth round M33..M35: ids as in round 8 (C05-33v, ...)
+ROUND10 = os.environ.get('ROUND10', '0') == '1'
+if ROUND10:    # session 3, M36: ids as in round 8 (C11-36v)
+    cands = sorted(glob.glob('/tmp/M36_out/C??-?'))
+    ROUND8 = True
+elif ROUND9:     # ninth round M33..M35: ids as in round 8 (C05-33v, ...)
     cands = sorted(glob.glob('/tmp/M3[3-5]_out/C??-?'))
     ROUND8 = True
 elif ROUND8:     # eighth round M30..M32: ids get the agent number in front of the letter (C05-30v, C05-31v, ...)
